@@ -87,7 +87,9 @@ def run_case(desc):
         U = None
         clf = streams.pwc_clf(gen.rng_for("c10clf", desc["seed"]), d) if name in streams.NEEDS_FREQ else streams.stub_clf()
     invariant = (is_bm and name in INVARIANT_BMS) or (
-        not is_bm and name in INVARIANT_STRATS and (desc["bm"] is None or desc["bm"] in INVARIANT_BMS))
+        not is_bm and name in INVARIANT_STRATS and (desc["bm"] is None or desc["bm"] in INVARIANT_BMS)) or (
+        # the density strategy simulates its manager candidate by candidate: with a claimed manager the pair is deterministic
+        name == "StreamDensityBasedAL" and desc["bm"] in INVARIANT_BMS)
     viol = []
     stats = {"queries": 0, "updates": 0, "mixed_chunks": 0}
 
